@@ -53,6 +53,11 @@ Proof. exact full_ln_sorted_last_kept. Qed.
 Theorem C17_specb_sound : forall m gap thr o, specb m gap thr o = true -> SpecO m gap thr o.
 Proof. exact specb_sound. Qed.
 
+(* ... and complete: the oracle decides the specification, so a `false` on an implementation output is a genuine
+   counter-example to the property's statement *)
+Theorem C17_specb_decides : forall m gap thr o, specb m gap thr o = true <-> SpecO m gap thr o.
+Proof. exact specb_decides. Qed.
+
 Theorem C17_specb_consequences : forall m gap thr m',
   specb m gap thr (Some m') = true -> 0 <= gap ->
   Spec m gap thr m' /\ CountKept (chart_notes m) (chart_notes m') /\
